@@ -8,43 +8,46 @@ import WhatwgUrl.Generated.Facts
 namespace WhatwgUrl.Props.C20
 open WhatwgUrl WhatwgUrl.Impl
 
-/-- every string `+=`, `[]rune(…)`, `string(x[i:])`, `strings.Split/ToLower/Repeat/ReplaceAll`, `newInputString` that occurs
-    inside a loop body of the two packages. A new site (e.g. a builder replaced by `+=`) changes the regenerated list. -/
-theorem C20_cost_sites : Generated.costSitesUrl = [
-  ("parser.parseIPv4", "ipv4 +="),
-  ("parser.parseOpaqueHost", "[]rune()"),
-  ("IPv6Addr.String", "output +="),
-  ("inputString.currentByteOffset", "pos +="),
-  ("parser.BasicParser", "newInputString"),
-  ("parser.BasicParser", "[]rune()"),
-  ("parser.percentEncodeRune", "j +="),
-  ("parser.DecodePercentEncoded", "string([:])"),
-  ("parser.DecodePercentEncoded", "i +="),
-  ("SearchParams.init", "strings.ReplaceAll")] ∧
-    Generated.costSitesCanon = [
-  ("decodePercentEncoded", "i +=")] := by decide
+/-! The regenerated inventory (`costSitesTyped` in harness/facts.go, on go/types): inside a loop body — or, one call
+level down, at the top level of a function of the package that is called from inside a loop — every string built by `+=`,
+every conversion that copies its operand, every call of a function whose cost is linear in an operand. Numeric `+=` is
+not a site. The theorems are ∀-statements over the current inventory: a site that disappears changes nothing, a NEW site
+must be classified here (or the obligation breaks and the cost search looks for a super-linear family). -/
 
-/-- sites whose cost per iteration is not constant but is paid for by the input consumed since the site last ran
-    (the buffer is reset afterwards), or that run once per state change — amortised linear -/
+/-- sites whose cost per execution is not constant but is paid for by the input consumed since the site last ran (the
+    buffer is reset afterwards), or that run a bounded number of times per parse — amortised linear -/
 def amortisedSites : List (String × String) := [
-  ("parser.BasicParser", "newInputString"),      -- credentials: once per '@', over the buffer collected since the last '@'
-  ("parser.BasicParser", "[]rune()"),            -- authority -> host: once, over the buffer
-  ("SearchParams.init", "strings.ReplaceAll"),   -- once per parameter, over that parameter
-  ("inputString.currentByteOffset", "pos +=")]   -- adds a number; the enclosing function is O(pointer) per call and is only
-                                                 -- reached for invalid code points under WithAcceptInvalidCodepoints (time, not allocation)
+  ("parser.BasicParser", "call newInputString"),                              -- credentials: once per '@', over the buffer collected since the last '@'
+  ("parser.BasicParser", "copying conversion []rune(buffer.String())"),       -- authority -> host: once, over the buffer
+  ("parser.parseHost", "call newInputString"),                                -- once per host
+  ("newInputString", "copying conversion []rune(s)"),                         -- the operand of the two calls above
+  ("SearchParams.init", "call strings.ReplaceAll"),                           -- once per parameter, over that parameter
+  ("SearchParams.init", "call strings.SplitN"),                               -- once per parameter, over that parameter
+  ("parser.DecodePercentEncoded", "copying conversion []byte(s)"),           -- once per call, over the text being decoded (a host, a parameter)
+  ("decodePercentEncoded", "copying conversion []byte(s)"),                   -- canonicalizer: once per component and decoding round
+  ("parser.PercentEncodeString", "copying conversion []rune(s)"),             -- once per call, over the text being encoded
+  ("parser.parseOpaqueHost", "copying conversion []rune(input[:])"),          -- bounded slice: at most 3 bytes after a '%' (repaired F16)
+  ("inputString.remainingFromPointer", "copying conversion string(i.runes[:])"),  -- file / file-slash state: at most twice per parse
+  ("inputString.remainingStartsWith", "copying conversion string(i.runes[:])"),   -- states visited once per parse; IPv6 "::" test: at most 8 pieces
+  ("isSingleDotPathSegment", "call strings.ToLower"),                         -- once per path segment, over that segment
+  ("isDoubleDotPathSegment", "call strings.ToLower")]                         -- once per path segment, over that segment
 
-/-- sites that add a number or append a piece of bounded size -/
+/-- sites that copy a piece of bounded size (at most 3 code points / 12 bytes / 39 characters) -/
 def constantSites : List (String × String) := [
-  ("parser.parseIPv4", "ipv4 +="), ("parser.parseOpaqueHost", "[]rune()"), ("IPv6Addr.String", "output +="),
-  ("parser.percentEncodeRune", "j +="), ("parser.DecodePercentEncoded", "string([:])"), ("parser.DecodePercentEncoded", "i +="),
-  ("decodePercentEncoded", "i +=")]
+  ("IPv6Addr.String", "string += output"),                                    -- 8 pieces
+  ("parser.BasicParser", "copying conversion string(?)"),                     -- one byte
+  ("parser.DecodePercentEncoded", "copying conversion string(bytes[:])"),     -- three bytes
+  ("parser.percentEncodeRune", "copying conversion string(percentEncoded[:])"), -- the escape of one code point
+  ("percentEncodeByte", "copying conversion string(percentEncoded)"),         -- three bytes
+  ("remainingIsInvalidPercentEncoded", "copying conversion string(runes[:])")] -- at most three code points
 
-/-- every loop-carried site of the current source is classified; in particular there is no string `+=` on an accumulated
-    result inside a loop any more (the repaired quadratic families: credentials, opaque host, path serializer) -/
-theorem C20_sites_classified : ∀ s ∈ Generated.costSitesUrl ++ Generated.costSitesCanon, s ∈ amortisedSites ∨ s ∈ constantSites := by decide
+/-- every site of the current source is classified -/
+theorem C20_sites_classified : ∀ s ∈ Generated.costSitesUrl ++ Generated.costSitesCanon, s ∈ amortisedSites ∨ s ∈ constantSites := by decide +kernel
 
+/-- there is no string `+=` on an accumulated result inside a loop (the repaired quadratic families: credentials, opaque
+    host, path serializer), except the 8-piece IPv6 serializer -/
 theorem C20_no_accumulating_concatenation : ∀ s ∈ Generated.costSitesUrl ++ Generated.costSitesCanon,
-    s.2 ∉ ["output +=", "url.username +=", "url.password +="] ∨ s = ("IPv6Addr.String", "output +=") := by decide
+    s.2.toList.take 9 = "string +=".toList → s = ("IPv6Addr.String", "string += output") := by decide +kernel
 
 /-- the number of iterations of the parser's main loop is linear in the number of code points (C02's measure):
     at most 18·(n+2) − 1 continuing steps -/
